@@ -11,7 +11,7 @@ import (
 	"golang.org/x/tools/go/ssa"
 )
 
-const maxDepth = 14
+const maxDepth = 24
 
 var pkgAlias = map[string]string{
 	"cosmossdk.io/math":                         "sdkmath",
@@ -125,12 +125,19 @@ var binopName = map[token.Token]string{
 
 // Origins computes origin terms for the values of one function (memoised).
 type Origins struct {
-	Fn     *ssa.Function
-	inprog map[*ssa.Phi]bool
-	memo   map[ssa.Value]*Term
+	Fn          *ssa.Function
+	inprog      map[*ssa.Phi]bool
+	inprogLocal map[localKey]bool
+	memo        map[ssa.Value]*Term
 	// stores per (struct type, field index) through non-local bases
 	fieldStores map[fieldKey][]*ssa.Store
 	built       bool
+}
+
+type localKey struct {
+	a     *ssa.Alloc
+	field int
+	at    ssa.Instruction
 }
 
 type fieldKey struct {
@@ -609,6 +616,16 @@ func (o *Origins) load(ld *ssa.UnOp, depth int) *Term {
 // localValue: value of local variable `a` (field `field`, or the whole variable when field<0) just
 // before instruction `at`, from the stores that reach it (flow-sensitive over the CFG).
 func (o *Origins) localValue(a *ssa.Alloc, field int, at ssa.Instruction, depth int) *Term {
+	// a load that is (transitively) defined in terms of itself is loop-carried
+	lk := localKey{a, field, at}
+	if o.inprogLocal[lk] {
+		return &Term{Op: "param", Name: "#self"}
+	}
+	if o.inprogLocal == nil {
+		o.inprogLocal = map[localKey]bool{}
+	}
+	o.inprogLocal[lk] = true
+	defer delete(o.inprogLocal, lk)
 	defs, entry := o.reachingDefs(a, field, at)
 	fname := ""
 	if field >= 0 {
@@ -618,6 +635,9 @@ func (o *Origins) localValue(a *ssa.Alloc, field int, at ssa.Instruction, depth 
 	seen := map[string]bool{}
 	add := func(t *Term) {
 		s := t.String()
+		if s == "#self" {
+			return
+		}
 		if !seen[s] {
 			seen[s] = true
 			alts = append(alts, t)
